@@ -588,7 +588,7 @@ pub fn run(cfg: &Cfg) {
                         let l: usize = t[3].parse().unwrap();
                         let max = (1usize << 20) /* the property's 1 MiB */;
                         if l <= max && !line.contains(" sent ") { m = Err(format!("C05/C11: a frame of payload length {l} <= limit was refused by the encoder: {line}")); }
-                        if t[2] == "RP" && l <= max && !line.contains(&format!("got={},5 ", l - 9)) { m = Err(format!("C11/C03: a publisher's frame within the limit (payload length {l}) did not reach the subscriber, or took the following message with it: {line}")); }
+                        if t[2] == "RP" && l <= max && !line.contains(&format!("got={},5 ", l - 9)) { m = Err(format!("C01/C03/C11: a publisher's frame within the limit (payload length {l}) did not reach the subscriber, or took the following message with it: {line}")); }
                         if t[2] == "RQ" && !line.contains("after=len5") { m = Err(format!("C11: after a request of payload length {l} the next request on the same stream was not answered: {line}")); }
                     }
                     if t[1] == "pipeline" {
